@@ -165,6 +165,16 @@ def array_cases(rec, hub, rng, tier, i):
                     kw["linecolor_dim"] = spell(ll)
                 if x_arr is not None:
                     kw["x_array"] = x_arr.copy()
+                disp = {}
+                if rng.random() < 0.3:
+                    # display names (also two items shown under the same text): labels change, the lines do not
+                    for dl_ in (sl, ll):
+                        if dl_ is not None:
+                            its_ = list(dims[dl_].items)
+                            same = rng.random() < 0.5
+                            for it_ in its_[:2]:
+                                disp[it_] = "shown as one" if same else f"display {it_}"
+                    kw["display_names"] = dict(disp)
                 sig = f"{plotter_name}|{chart}|nd={nd}|x={xl}|s={sl}|l={ll}|xarr={xsig}|shape={dims.shape}"
                 rec.event(MA, sig=sig, cls=f"{plotter_name}|{chart}|nd={nd}|subplot={'y' if sl else 'n'}|lines={'y' if ll else 'n'}|xarr={'y' if x_arr is not None else 'n'}",
                           sample={"plotter": plotter_name, "chart": chart, "dims": letters, "intra_line": kw["intra_line_dim"], "subplot": kw.get("subplot_dim"), "line": kw.get("linecolor_dim"), "x_array_dims": xsig})
@@ -175,7 +185,7 @@ def array_cases(rec, hub, rng, tier, i):
                     rec.violation(MA, f"array-plot:raised-on-a-valid-configuration:{plotter_name}", {"exc": f"{type(e).__name__}: {str(e)[:300]}", "roles": sig})
                     continue
                 try:
-                    judge_figure(rec, fd, plotter_name, chart, fig, arr, L, dims, xl, sl, ll, x_arr, sig)
+                    judge_figure(rec, fd, plotter_name, chart, fig, arr, L, dims, xl, sl, ll, x_arr, sig + ("|display" if disp else ""), disp=disp)
                     if chart == "line" and rng.random() < 0.35:
                         # a second array drawn onto the existing figure: the new lines must carry the second array's entries
                         vals2 = (4096.0 + rng.permutation(int(np.prod(dims.shape))) * 0.25).reshape(dims.shape)
@@ -188,7 +198,7 @@ def array_cases(rec, hub, rng, tier, i):
                         except Exception as e:
                             rec.violation(MA, f"array-plot:raised-when-adding-to-an-existing-figure:{plotter_name}", {"exc": f"{type(e).__name__}: {str(e)[:300]}", "roles": sig})
                         else:
-                            judge_figure(rec, fd, plotter_name, chart, fig2, arr2, LArr.from_snap(Snap(arr2)), dims, xl, sl, ll, x_arr, sig + "|second", skip=n_before)
+                            judge_figure(rec, fd, plotter_name, chart, fig2, arr2, LArr.from_snap(Snap(arr2)), dims, xl, sl, ll, x_arr, sig + "|second", skip=n_before, disp=disp)
                 finally:
                     if plotter_name == "pyplot":
                         plt.close(fig)
@@ -201,7 +211,7 @@ def _norm(v):
         return str(v)
 
 
-def judge_figure(rec, fd, plotter_name, chart, fig, arr, L, dims, xl, sl, ll, x_arr, sig, skip=None):
+def judge_figure(rec, fd, plotter_name, chart, fig, arr, L, dims, xl, sl, ll, x_arr, sig, skip=None, disp=None):
     s_items = list(dims[sl].items) if sl else [None]
     l_items = list(dims[ll].items) if ll else [None]
     x_items = list(dims[xl].items)
@@ -258,7 +268,7 @@ def judge_figure(rec, fd, plotter_name, chart, fig, arr, L, dims, xl, sl, ll, x_
         if o[2] != xs and not categorical_scatter:
             rec.violation(MA, f"array-plot:x-data-differ:{plotter_name}", {"got": o[2][:6], "expected": xs[:6], "roles": sig, "x_array": x_arr is not None})
             return
-        if l is not None and plotter_name == "plotly" and o[1] != str(l):
+        if l is not None and plotter_name == "plotly" and o[1] != str((disp or {}).get(l, l)):
             rec.violation(MA, "array-plot:line-named-after-another-item:plotly", {"got": o[1], "expected": str(l), "roles": sig})
             return
 
